@@ -268,7 +268,7 @@ if __name__ == '__main__':
     feats = ('std', 'docs') if '--docs' in sys.argv else ('std',)
     for a in sys.argv:
         if a.startswith('--features='):
-            feats = tuple(a.split('=')[1].split(','))
+            feats = tuple(x for x in a.split('=')[1].split(',') if x)
     r = verify_unit(unit, default_cfg(feats))
     print('unit', r.name, 'status', r.status, r.reason)
     print('verified', r.verified, 'errors', r.n_errors, 'smt_ms', r.smt_ms, 'wall', round(r.wall_s, 1))
